@@ -37,8 +37,10 @@ P['C02']={
   H+"encodeTokensToHeaders":[], A+"encodeHeaderValue":[],
   "oidc.ParseToken":[], "oidc.TokenResponse.ParseIDToken":[],
   A+"performIDPRequest":["decoded","sent","count"],
+  "oidc.DefaultJWKSProvider.fetchStatic":[],
  },
- "required":[H+"isValidIDToken:post:valid", H+"retrieveTokens:post:bind", H+"Process:post:ok_forwards", H+"allowResponse:post:only_tokens", "oidc.ParseToken:pre@call:jwt.Parse.opts"],
+ "refines":["oidc.DefaultJWKSProvider.Get"],
+ "required":["oidc.DefaultJWKSProvider.Get:refine:JWKSProvider.Get.keys", H+"isValidIDToken:post:valid", H+"retrieveTokens:post:bind", H+"Process:post:ok_forwards", H+"allowResponse:post:only_tokens", "oidc.ParseToken:pre@call:jwt.Parse.opts"],
  "note":"that jws.Verify / jwt.Parse reject forged tokens is a trusted contract (T-jws-Verify, T-jwt-Parse); decided: every bind is dominated by a successful verification of exactly the stored string under a key set of the configured provider, audience and nonce checks on claims of the same string; options of jwt.Parse / jws.Verify are pinned by preconditions"}
 P['C04']={
  "posts":{
@@ -116,6 +118,18 @@ P['C08']={
  "required":["server.ExtAuthZFilter.Check:post:judged","server.ExtAuthZFilter.Check:post:unmatched","server.matches:post:spec","server.init$1:post:denied"],
  "assumptions":["A-ENVOY-LOWER: Envoy sends lower-case header keys (the criterion header is looked up under its lower-cased name, as the code assumes)","ChainsResolved: every filter is a mock or an OIDC filter with a resolved configuration (established by configuration loading, C17)"],
  "note":"the ghost log of Handler.Process invocations states which filters ran, in which order, and that evaluation stopped at the first denial; handler construction (NewOIDCHandler) is an assumed contract"}
+MS="oidc.memoryStore."
+P['C12']={
+ "refines":[MS+"SetTokenResponse",MS+"GetTokenResponse",MS+"SetAuthorizationState",MS+"GetAuthorizationState",MS+"ClearAuthorizationState",MS+"RemoveSession"],
+ "lemmas":["L-onlysid-ext"],
+ "required":[MS+"GetTokenResponse:refine:SessionStore.GetTokenResponse.got", MS+"SetTokenResponse:refine:SessionStore.SetTokenResponse.ok", MS+"RemoveSession:refine:SessionStore.RemoveSession.ok", MS+"ClearAuthorizationState:refine:SessionStore.ClearAuthorizationState.ok", MS+"SetTokenResponse:refine:repinv.distinct", MS+"GetTokenResponse:pre@call:sync.Mutex.Lock.not_held"],
+ "note":"memory store only (see level note): every method refines the abstract-map contract of SessionStore under the abstraction MemView, keeps the representation invariants, and acquires / releases the store mutex exactly once around its accesses"}
+P['C10']={
+ "posts":{H+"Process":["ok_not_timed_out","ok_justified"]},
+ "refines":[MS+"GetTokenResponse",MS+"GetAuthorizationState",MS+"SetTokenResponse",MS+"SetAuthorizationState",MS+"ClearAuthorizationState",MS+"RemoveSession"],
+ "lemmas":["L-onlysid-ext","L-timedout-monotone"],
+ "required":[MS+"GetTokenResponse:refine:SessionStore.GetTokenResponse.timeout", MS+"GetAuthorizationState:refine:SessionStore.GetAuthorizationState.timeout", MS+"GetTokenResponse:refine:SessionStore.GetTokenResponse.kept_inside", H+"Process:post:ok_not_timed_out"],
+ "note":"memory store only (see level note)"}
 P['C03']={
  "posts":{
   H+"retrieveTokens":["login_expiry","redirect_back","bind","consumed","count","view"],
